@@ -241,7 +241,7 @@ func TestC13(t *testing.T) {
 		fmt.Println("REPLAY case passed:", c)
 		return
 	}
-	ev.Rule("XYZ lattice over [-0.5,2]^3 (64^3 quick, 256^3 thorough) and rapid float32 triples, x whites {D50, D65, rapid positive whites with components in [0.5,2], lopsided whites with components log-uniform in [1e-4, 3.2] and the colour given relative to the white}; junction sweeps of 4000 consecutive float32 values centred on white*216/24389 on each axis; multiples t*white for t in (0,2]; Lab box L in [-10,110], a,b in [-200,200] for the inverse; (Y, next float) pairs for monotone L*; very large finite XYZ for finiteness; an eighth of the rapid cases and half of the special-value cases directly follow a request outside the domain (non-finite component, white with a zero/NaN/negative component) whose answer is ignored. non-trivial = distinct case with a component outside [0,1], a ratio within 1e-3 of the junction, a non-standard white, or any non-ToLAB kind")
+	ev.Rule("XYZ lattice over [-0.5,2]^3 (64^3 quick, 256^3 thorough) and rapid float32 triples, x whites {D50, D65, rapid positive whites with components in [0.5,2], lopsided whites with components log-uniform in [1e-4, 3.2] and the colour given relative to the white}; junction sweeps of 4000 consecutive float32 values centred on white*216/24389 on each axis; multiples t*white for t in (0,2]; Lab box L in [-10,110], a,b in [-200,200] for the inverse; (Y, next float) pairs for monotone L*; very large finite XYZ for finiteness; a run of 140000 conversions over three whites in rotation and very few colours, rare ones returning 255..257 and 65535..65537 conversions later under another white; an eighth of the rapid cases and half of the special-value cases directly follow a request outside the domain (non-finite component, white with a zero/NaN/negative component) whose answer is ignored. non-trivial = distinct case with a component outside [0,1], a ratio within 1e-3 of the junction, a non-standard white, or any non-ToLAB kind")
 	ev.Assume("float64 CIE 1976 formulas in internal/ref (math.Cbrt, eps=216/24389, kappa=24389/27); colour/white ratios within about [-1, 4] (whites >= 0.5 per component for colours in [-0.5,2]^3; for smaller whites the colour is drawn relative to the white) so that the stated tolerances are satisfiable by a float32 result")
 	whites := [][3]float32{D50, D65, {0.5, 0.5, 0.5}, {2, 2, 2}, {0.7, 1, 1.9}, {1.3, 0.55, 0.8}, {1.3233, 1, 0.0023}, {0.004, 0.9, 1.2}}
 	n := ev.Pick(64, 256)
@@ -385,7 +385,9 @@ func TestC13(t *testing.T) {
 	// exactly at L* = 8 (= kappa*eps), 0 and 100
 	for _, w := range whites {
 		sp := func(i int) []float32 {
-			return []float32{0, float32(float64(w[i]) * ref.LabEps), w[i], float32(math.Copysign(0, -1)), 1, w[i] / 2}
+			// ... and the white's OTHER components in this position (a colour that equals the white in one channel, or
+			// equals another channel's white)
+			return []float32{0, float32(float64(w[i]) * ref.LabEps), w[i], float32(math.Copysign(0, -1)), 1, w[i] / 2, w[(i+1)%3], w[(i+2)%3]}
 		}
 		for _, x := range sp(0) {
 			for _, y := range sp(1) {
@@ -506,6 +508,30 @@ func TestC13(t *testing.T) {
 			ev.Fail(rt, "lab", k, w, c)
 		}
 	})
+	// a long run that keeps changing the reference white (three whites in rotation) over very few colours, in which
+	// rare colours return exactly 255..257 and 65535..65537 conversions later under another white: what a conversion
+	// remembers about a colour or a white (stamps and counters wrap at such distances) must not survive to the wrong one
+	{
+		ws := [][3]float32{D50, D65, {1.0985, 1, 0.3558}}
+		common := [][3]float32{{0.2, 0.3, 0.4}, {0.9, 0.95, 0.7}, {0.01, 0.02, 0.005}, {0.5, 0.5, 0.5}}
+		dist := []int{255, 256, 257, 65535, 65536, 65537}
+		n := 140000
+		for i := 0; i < n; i++ {
+			v := common[i%len(common)]
+			for _, d := range dist {
+				if i%d == 0 {
+					v = [3]float32{0.3 + float32(d%7)/20, 0.25 + float32(d%5)/15, 0.1 + float32(d%3)/9}
+				}
+			}
+			c := Case{Kind: "tolab", V: v, White: ws[i%3]}
+			if k, w := check(c); k != "" {
+				ev.Violation("lab", k, fmt.Sprintf("conversion %d of a long run over three whites in rotation: %s", i+1, w), c)
+				break
+			}
+		}
+		ev.Eval(int64(n))
+		ev.Class("white-rotation-soak", int64(n))
+	}
 	// the first 400 generated cases once more, after everything else has been asked: what the library may have
 	// remembered in the meantime (memos, caches that filled up and evicted, adapted sizes) must not change them
 	for _, c := range early {
